@@ -487,17 +487,35 @@ pub fn run(opts: &Opts) -> i32 {
             }
         }
     }
+    let selfchecks = std::sync::atomic::AtomicU64::new(0);
+    let selfcheck_skips = std::sync::atomic::AtomicU64::new(0);
     let results: Vec<_> = scs
         .par_iter()
-        .map(|sc| {
+        .enumerate()
+        .map(|(idx, sc)| {
             // thorough: small layouts are explored without any preemption bound (state-key pruning
             // makes that finite and small), the others with bound 3
             let bound = if !q && sc.lay.len <= 2 && sc.parties.len() <= 2 { usize::MAX } else { bound };
             let bound = match std::env::var("TCMC_BOUND").ok().as_deref() { Some("max") => usize::MAX, Some(n) => n.parse().unwrap_or(bound), None => bound };
             let cfg = ExploreCfg { bound, max_schedules: 5_000_000, deadline: Some(deadline), seen: Some(Default::default()) };
-            explore(sc, &cfg)
+            let r = explore(sc, &cfg);
+            // pruning self-check on every 16th (thorough: 4th) scenario: same outcomes as unpruned
+            let (every, cap) = if q { (16, 4_000) } else { (4, 100_000) };
+            if idx % every == 0 && r.1.is_empty() && !r.0.capped {
+                match crate::explore::sched::pruning_selfcheck(sc, bound, cap) {
+                    Some(Ok(_)) => { selfchecks.fetch_add(1, std::sync::atomic::Ordering::Relaxed); }
+                    Some(Err(e)) => {
+                        eprintln!("MACHINERY ERROR: C10 state-key pruning is unsound on {:?} {:?}: {e}", sc.lay, sc.parties);
+                        std::process::exit(2);
+                    }
+                    None => { selfcheck_skips.fetch_add(1, std::sync::atomic::Ordering::Relaxed); }
+                }
+            }
+            r
         })
         .collect();
+    rep.add("pruning_selfcheck_scenarios_equal_to_unpruned", selfchecks.into_inner());
+    rep.add("pruning_selfcheck_scenarios_skipped_unpruned_too_large", selfcheck_skips.into_inner());
     let (mut schedules, mut steps, mut nontrivial, mut outcomes, mut capped) = (0u64, 0u64, 0u64, 0u64, 0u64);
     for (i, (st, fails)) in results.into_iter().enumerate() {
         let sc = &scs[i];
